@@ -7,7 +7,6 @@ import (
 	"os"
 	"path/filepath"
 	"strconv"
-	"strings"
 )
 
 var checks = map[string]func(*Checker){
@@ -20,6 +19,8 @@ var checks = map[string]func(*Checker){
 	"C18": checkC18,
 	"C19": checkC19,
 	"C20": checkC20,
+	"C06": checkC06,
+	"C07": checkC07,
 	"C10": checkC10,
 	"C11": checkC11,
 	"C12": checkC12,
@@ -28,7 +29,7 @@ var checks = map[string]func(*Checker){
 }
 
 // thoroughArch lists the properties whose thorough tier adds the 386 configuration.
-var thoroughArch = map[string]bool{"C13": true}
+var thoroughArch = map[string]bool{"C13": true, "C06": true, "C07": true, "C08": true, "C09": true, "C16": true}
 
 func main() {
 	prop := flag.String("prop", "", "property id")
@@ -59,7 +60,7 @@ func main() {
 			os.Exit(2)
 		}
 		for _, fn := range w.sortedFuncs() {
-			if strings.ReplaceAll(fn.String(), w.Pkg.PkgPath+".", "") != *dump {
+			if shortFn(w, fn) != *dump {
 				continue
 			}
 			dumpSummary(w, w.Interp.Run(fn))
